@@ -4,6 +4,13 @@
 //! The harness is the raw remote: it injects hand-encoded mplex frames (one frame per read of the
 //! muxer, so the number of frames the muxer has decoded is observable) and interprets local
 //! operations as single polls of the real `StreamMuxer` / substream API.
+//!
+//! The remote can also stop reading (`Stall` / `Unstall`: every write of the muxer to the connection
+//! is Pending) while the application writes on held substreams (`WriteLocal`), so that the muxer's
+//! send buffer goes above its high-water mark and closes, opens, resets and flushes run into write
+//! back-pressure. A small *bulk* class of cases constructs exactly that: stall, write past the
+//! high-water mark, poll_close (cannot complete), release, close again, then a burst of remote
+//! opens and data, checked by the same limit / no-loss model.
 
 use crate::chan::Chan;
 use futures::io::{AsyncRead, AsyncWrite};
@@ -42,6 +49,12 @@ pub enum Op {
     Flush { h: u16 },
     /// one poll_outbound
     OpenOut,
+    /// up to `frames` poll_write calls (64 KiB buffer, i.e. one frame of split_send_size bytes each)
+    /// on a held substream, stopping at the first Pending / error; nothing is flushed
+    WriteLocal { h: u16, frames: u8 },
+    /// the remote stops reading: every write to the connection is Pending until `Unstall`
+    Stall,
+    Unstall,
 }
 
 #[derive(Clone, Debug, Serialize, Deserialize)]
@@ -50,7 +63,16 @@ pub struct Case {
     max_buffer_len: u8,
     reset_mode: bool,
     ops: Vec<Op>,
+    #[serde(default = "default_split")]
+    split_send_size: u16,
 }
+
+fn default_split() -> u16 {
+    8192
+}
+
+/// send high-water mark of the `asynchronous_codec::Framed` sink mplex writes into
+const HWM: u64 = 128 * 1024;
 
 fn op() -> impl Strategy<Value = Op> {
     prop_oneof![
@@ -64,12 +86,66 @@ fn op() -> impl Strategy<Value = Op> {
         1 => any::<u16>().prop_map(|h| Op::CloseLocal { h }),
         1 => any::<u16>().prop_map(|h| Op::Flush { h }),
         1 => Just(Op::OpenOut),
+        1 => (any::<u16>(), 1u8..=3).prop_map(|(h, frames)| Op::WriteLocal { h, frames }),
+        1 => prop_oneof![Just(Op::Stall), Just(Op::Unstall)],
     ]
 }
 
+fn split() -> impl Strategy<Value = u16> {
+    prop_oneof![4 => Just(8192u16), 1 => Just(64u16), 1 => Just(1024u16), 1 => Just(u16::MAX)]
+}
+
 fn strategy(max_ops: usize) -> impl Strategy<Value = Case> {
-    (1u8..=6, 1u8..=5, any::<bool>(), proptest::collection::vec(op(), 1..=max_ops))
-        .prop_map(|(max_substreams, max_buffer_len, reset_mode, ops)| Case { max_substreams, max_buffer_len, reset_mode, ops })
+    (1u8..=6, 1u8..=5, any::<bool>(), proptest::collection::vec(op(), 1..=max_ops), split())
+        .prop_map(|(max_substreams, max_buffer_len, reset_mode, ops, split_send_size)| Case { max_substreams, max_buffer_len, reset_mode, ops, split_send_size })
+}
+
+/// Bulk class, built by construction: some accepted substreams, generated prefix, `Stall`, enough
+/// `WriteLocal` on one held substream to put the send buffer above the high-water mark,
+/// `CloseLocal` on it (cannot complete), generated remote traffic, `Unstall`, optionally the
+/// retried `CloseLocal`, a burst of remote opens, then a generated tail. Between `Stall` and the
+/// retried close no operation changes the set of held substreams, so `h` names the same one.
+fn bulk_strategy(max_ops: usize) -> impl Strategy<Value = Case> {
+    let quiet_op = || {
+        prop_oneof![
+            2 => prop_oneof![4 => Just(0u8), 1 => 1u8..=3].prop_map(|gap| Op::ROpen { gap }),
+            6 => (any::<u16>(), 1u8..=20).prop_map(|(s, len)| Op::RData { s, len }),
+            1 => any::<u16>().prop_map(|s| Op::RClose { s }),
+            3 => any::<u16>().prop_map(|h| Op::Read { h }),
+            1 => any::<u16>().prop_map(|h| Op::Flush { h }),
+        ]
+    };
+    (
+        (1u8..=6, 1u8..=5, any::<bool>(), prop_oneof![Just(1024u16), Just(4096u16), Just(8192u16), Just(16384u16), Just(u16::MAX)]),
+        (1usize..=3, proptest::collection::vec(op(), 0..=8), prop_oneof![Just(0u16), Just(0x8000u16), Just(u16::MAX)], 0u8..=3),
+        (proptest::collection::vec(quiet_op(), 0..=4), proptest::collection::vec(quiet_op(), 0..=4), any::<bool>(), 0usize..=6),
+        proptest::collection::vec(op(), 4..=max_ops / 2),
+    )
+        .prop_map(|((max_substreams, max_buffer_len, reset_mode, split_send_size), (n_in, pre, h, extra), (mid1, mid2, retry, burst), tail)| {
+            let mut ops = vec![];
+            for _ in 0..n_in {
+                ops.push(Op::ROpen { gap: 0 });
+                ops.push(Op::Accept);
+            }
+            ops.extend(pre);
+            ops.push(Op::Unstall);
+            ops.push(Op::Flush { h });
+            ops.push(Op::Stall);
+            let frames = (HWM as usize / split_send_size as usize + 1 + extra as usize).min(255) as u8;
+            ops.push(Op::WriteLocal { h, frames });
+            ops.extend(mid1);
+            ops.push(Op::CloseLocal { h });
+            ops.extend(mid2);
+            ops.push(Op::Unstall);
+            if retry {
+                ops.push(Op::CloseLocal { h });
+            }
+            for _ in 0..burst {
+                ops.push(Op::ROpen { gap: 0 });
+            }
+            ops.extend(tail);
+            Case { max_substreams, max_buffer_len, reset_mode, ops, split_send_size }
+        })
 }
 
 // wire format (mplex spec): header = num << 3 | flag, then length, then payload
@@ -126,6 +202,10 @@ struct RStream {
     /// frames the muxer accepted for this stream and the harness has not read yet
     unread: VecDeque<Vec<u8>>,
     eof_seen: bool,
+    /// the muxer decoded a Reset of the remote for it
+    reset_by_remote: bool,
+    /// probe: a local poll_close on it hit write back-pressure
+    close_bp: bool,
 }
 
 enum Held {
@@ -133,11 +213,18 @@ enum Held {
     Out(Substream<Chan>),
 }
 
+fn done(nontrivial: bool, mut labels: Vec<&'static str>) -> Outcome {
+    labels.sort();
+    labels.dedup();
+    Outcome::pass_l(nontrivial, labels)
+}
+
 fn check(case: &Case) -> Outcome {
     let (a, _b) = plain_pair();
     let chan = Chan::new(a.clone());
     let mut cfg = Config::new();
     cfg.set_max_num_streams(case.max_substreams as usize)
+        .set_split_send_size(case.split_send_size.max(1) as usize)
         .set_max_buffer_size(case.max_buffer_len as usize)
         .set_max_buffer_behaviour(if case.reset_mode { MaxBufferBehaviour::ResetStream } else { MaxBufferBehaviour::Block });
     let mut muxer = cfg.upgrade_inbound(chan.clone(), "/mplex/6.7.0").now_or_never().unwrap().unwrap();
@@ -162,6 +249,13 @@ fn check(case: &Case) -> Outcome {
     let mut conn_error = false;
     let mut stalled = false;
     let mut wire: Vec<u8> = vec![];
+    // back-pressure bookkeeping (labels only): payload bytes accepted by poll_write, whether the
+    // remote currently reads, handles whose poll_close was already called, back-pressured closes seen
+    let mut accepted_payload: u64 = 0;
+    let mut stalled_writes = false;
+    let mut close_polled: Vec<bool> = vec![];
+    let mut any_close_bp = false;
+    let zeros = vec![0u8; 65536];
 
     macro_rules! fail {
         ($sig:expr, $what:expr) => {
@@ -179,6 +273,9 @@ fn check(case: &Case) -> Outcome {
                     Sent::Open(n) => {
                         let s = streams.get_mut(n).unwrap();
                         s.seen = true;
+                        if any_close_bp {
+                            labels.push("open-after-close-under-backpressure");
+                        }
                         if live >= max_sub {
                             s.refused = true;
                             expect_reset.insert(*n);
@@ -196,8 +293,14 @@ fn check(case: &Case) -> Outcome {
                         if s.accepted && !s.dropped && s.recv_open {
                             let direct = reading == Some(*n) && s.buf == 0;
                             s.unread.push_back(d.clone());
+                            if s.close_bp {
+                                labels.push("data-after-close-under-backpressure");
+                            }
                             if !direct {
                                 s.buf += 1;
+                                if s.buf >= 3 {
+                                    labels.push("buffered>=3-frames");
+                                }
                                 if s.buf > max_buf + 1 {
                                     fail!("C26:buffer-exceeds-max-buffer-len-plus-one", format!("stream {n}: {} frames decoded and not read", s.buf));
                                 }
@@ -220,6 +323,9 @@ fn check(case: &Case) -> Outcome {
                         let s = streams.get_mut(n).unwrap();
                         if s.accepted && !s.dropped {
                             s.recv_open = false;
+                            if matches!(&sent[applied], Sent::Reset(_)) {
+                                s.reset_by_remote = true;
+                            }
                         }
                     }
                 }
@@ -325,6 +431,7 @@ fn check(case: &Case) -> Outcome {
                     };
                     trace.push(format!("accept -> stream {n}"));
                     held.push(Held::In(n, sub));
+                    close_polled.push(false);
                     true
                 }
                 Poll::Ready(Err(e)) => {
@@ -396,6 +503,10 @@ fn check(case: &Case) -> Outcome {
                     continue;
                 }
                 let i = pick(*h, held.len());
+                close_polled.remove(i);
+                if blocking.is_some() && !matches!(&held[i], Held::In(n, _) if blocking == Some(*n)) {
+                    labels.push("other-substream-dropped-while-blocked");
+                }
                 match held.remove(i) {
                     Held::In(n, sub) => {
                         drop(sub);
@@ -438,6 +549,73 @@ fn check(case: &Case) -> Outcome {
                 if let Poll::Ready(Err(_)) = res {
                     conn_error = true;
                 }
+                if close {
+                    // probe: first poll_close of a substream that still has to send its Close frame,
+                    // with the send buffer above the high-water mark before and after the poll while
+                    // the connection accepts nothing: the Close frame itself could not be queued
+                    let sink = accepted_payload.saturating_sub(a.written());
+                    let needs_frame = match &held[i] {
+                        Held::In(n, _) => !streams[n].reset_by_remote && !streams[n].overflowed,
+                        Held::Out(_) => true,
+                    };
+                    if !close_polled[i] && needs_frame && stalled_writes && sink >= HWM && res.is_pending() {
+                        labels.push("close-under-backpressure");
+                        any_close_bp = true;
+                        if let Held::In(n, _) = &held[i] {
+                            streams.get_mut(n).unwrap().close_bp = true;
+                        }
+                    }
+                    close_polled[i] = true;
+                }
+            }
+            Op::WriteLocal { h, frames } => {
+                if held.is_empty() {
+                    continue;
+                }
+                let i = pick(*h, held.len());
+                let mut wrote = 0usize;
+                let mut last = String::new();
+                for _ in 0..*frames {
+                    let res = match &mut held[i] {
+                        Held::In(_, sub) | Held::Out(sub) => Pin::new(sub).poll_write(&mut cx, &zeros),
+                    };
+                    match res {
+                        Poll::Ready(Ok(k)) => {
+                            wrote += k;
+                            accepted_payload += k as u64;
+                            if k == 0 {
+                                break;
+                            }
+                        }
+                        // a substream error (closed for writing / reset), or a connection error that
+                        // the next muxer operation will report
+                        Poll::Ready(Err(e)) => {
+                            last = format!(" then Err({e})");
+                            break;
+                        }
+                        Poll::Pending => {
+                            last = " then Pending".into();
+                            break;
+                        }
+                    }
+                }
+                advance!(None);
+                trace.push(format!("write held[{i}]: {wrote} bytes accepted{last}"));
+                if accepted_payload.saturating_sub(a.written()) >= HWM {
+                    labels.push("sink-above-high-water-mark");
+                }
+            }
+            Op::Stall => {
+                chan.set_blocked(true);
+                stalled_writes = true;
+                trace.push("remote stops reading".into());
+            }
+            Op::Unstall => {
+                if stalled_writes {
+                    trace.push("remote reads again".into());
+                }
+                chan.set_blocked(false);
+                stalled_writes = false;
             }
             Op::OpenOut => {
                 let res = Pin::new(&mut muxer).poll_outbound(&mut cx);
@@ -450,6 +628,7 @@ fn check(case: &Case) -> Outcome {
                         }
                         live += 1;
                         held.push(Held::Out(sub));
+                        close_polled.push(false);
                     }
                     Poll::Ready(Err(e)) => {
                         trace.push(format!("open outbound -> Err({e})"));
@@ -476,13 +655,14 @@ fn check(case: &Case) -> Outcome {
 
     if conn_error {
         labels.push("connection_error");
-        return Outcome::pass_l(false, labels);
+        return done(false, labels);
     }
     if stalled {
-        return Outcome::pass_l(false, labels);
+        return done(false, labels);
     }
 
-    // final phase: accept everything, read everything
+    // final phase: the remote reads again; accept everything, read everything
+    chan.set_blocked(false);
     let mut rounds = 0;
     loop {
         rounds += 1;
@@ -516,7 +696,7 @@ fn check(case: &Case) -> Outcome {
         }
         if conn_error {
             labels.push("connection_error");
-            return Outcome::pass_l(false, labels);
+            return done(false, labels);
         }
         if !progress && chan.consumed() == consumed_at_round_start {
             break;
@@ -538,6 +718,7 @@ fn check(case: &Case) -> Outcome {
     if held.is_empty() {
         if let Poll::Ready(Ok(sub)) = Pin::new(&mut muxer).poll_outbound(&mut cx) {
             held.push(Held::Out(sub));
+            close_polled.push(false);
         }
     }
     let mut flushed = false;
@@ -578,9 +759,7 @@ fn check(case: &Case) -> Outcome {
     if streams.values().any(|s| s.accepted && s.seq > 0) {
         labels.push("data_delivered");
     }
-    labels.sort();
-    labels.dedup();
-    Outcome::pass_l(limit_hit, labels)
+    done(limit_hit, labels)
 }
 
 // keep the trait imports used
@@ -588,16 +767,17 @@ fn check(case: &Case) -> Outcome {
 fn _assert_traits<T: AsyncRead + AsyncWrite>() {}
 
 pub fn run(ctx: &mut Ctx) {
-    ctx.assume("the remote is the harness: well-formed frames only, fresh stream numbers for every Open, no data after its own Close/Reset; the pipe always accepts the muxer's writes (no connection-level failure through unsendable resets)");
+    ctx.assume("the remote is the harness: well-formed frames only, fresh stream numbers for every Open, no data after its own Close/Reset; the pipe never fails; while the remote does not read (Stall..Unstall) every write to the connection is Pending, otherwise it accepts everything; the remote always reads again before the final phase");
     ctx.assume("the muxer is given exactly one frame per read, so the frames it has decoded are counted exactly; the reference model is advanced only by decoded frames and by the harness's own operations");
     ctx.assume("inbound substreams are handed out in the order their Open frames were decoded (used to name the substream returned by poll_inbound; every byte read is then checked against that stream's own frames)");
-    ctx.assume("dropping the substream that currently blocks the connection (Block mode, full buffer) ends the case: what happens afterwards is outside the statement");
+    ctx.assume("dropping the substream that currently blocks the connection (Block mode, full buffer) ends the case: what happens afterwards is outside the statement; dropping any other substream while one blocks continues the case");
+    ctx.assume("local writes and closes are not modelled (their results are only traced): they must not change which substreams count, which frames are delivered, or which resets appear");
     let max_ops = ctx.tier.sel(60, 120);
     ctx.check::<Case>(
         "limits",
-        "max_substreams 1..6, max_buffer_len 1..5, Block or ResetStream; 1..60 operations {remote Open/Data(2..20 bytes)/Close/Reset; local poll_inbound, poll_read, drop, poll_close, poll_flush, poll_outbound}, then accept and read everything, flush; non-trivial = an Open was refused, a buffer reached max_buffer_len+1 frames, or poll_outbound was refused at the limit",
+        "max_substreams 1..6, max_buffer_len 1..5, Block or ResetStream; 93 %: split_send_size in {64,1024,8192,65535}, 1..60 operations {remote Open/Data(2..20 bytes)/Close/Reset/stop reading/read again; local poll_inbound, poll_read, drop, poll_close, poll_flush, poll_outbound, poll_write x1..3}; 7 % bulk cases with split_send_size in {1024,4096,8192,16384,65535} built as [Open+accept x1..3, 0..8 ops, remote stops reading, poll_write until > 128 KiB are queued, 0..4 remote ops/reads, poll_close (back-pressured), 0..4 remote ops/reads, remote reads again, (poll_close again), 0..6 Opens, 4..30 ops]; then accept and read everything, flush; non-trivial = an Open was refused, a buffer reached max_buffer_len+1 frames, or poll_outbound was refused at the limit",
         ctx.n(400_000, 10_000_000),
-        &move || strategy(max_ops).boxed(),
+        &move || prop_oneof![93 => strategy(max_ops).boxed(), 7 => bulk_strategy(max_ops).boxed()].boxed(),
         &check,
     );
 }
